@@ -282,14 +282,17 @@ def run(tier, seed, replay=None):
     for idx, cs in (codes or {}).items():
         metas[idx]["codes"] = cs
     res.corr_error = err
-    res.corr_mismatches = [{"schema": m["schema"], "codes": [c for c in m["codes"] if c != 9],
+    res.corr_mismatches = [{"schema": m["schema"], "codes": [c for c in m["codes"] if c not in (9, 10)],
                             "what": "1 = Parser.v and the implementation build different trees; 6 = SerJson.v on the model's element differs from the "
                                     "pipeline's first normal form; 7 = the model's round trip is not the identity on a normal-form element "
-                                    "(would contradict C06_round_trip_normal_form)"}
-                           for m in metas if any(c in m["codes"] for c in (1, 6, 7))]
+                                    "(would contradict C06_round_trip_normal_form); 8 = schema in the fragment of C06_idempotent_classfree but the parsed "
+                                    "element fails the normal-form checker (would contradict C06_parser_image_normal)"}
+                           for m in metas if any(c in m["codes"] for c in (1, 6, 7, 8))]
     # code 9: the parsed element lies in the class-free normal form (NfFrag.nfb, proved sound): there J2 == J1 holds in the model by
     # theorem, and the implementation is tied to the model by the tree and document comparisons of this run
-    stats["theorem_applies"] = {"documents": sum(1 for m in metas if 9 in m["codes"]), "of": len(metas)}
+    # code 10: the SCHEMA lies in the fragment of C06_idempotent_classfree (class-free, named, tidy): the parser's image is in the normal form
+    stats["theorem_applies"] = {"documents": sum(1 for m in metas if 9 in m["codes"]), "schemas_in_fragment": sum(1 for m in metas if 10 in m["codes"]),
+                                "of": len(metas)}
     res.coverage["distribution"] = stats
     res.coverage["traces_validated_against_impl"] = len(metas)
     res.coverage["rule"] = ("documents (templates: renamed/required properties, repeated and case-variant titles, single-element type lists, local $ref "
